@@ -117,20 +117,27 @@ def gen_valid(rng, max_n=25, wmax=30):
     return n, edges
 
 
-def make_invalid(rng, n, edges):
-    """inject one or several precondition violations; returns (edges_as_written, kinds)"""
+def make_invalid(rng, n, edges, only=None):
+    """inject one or several precondition violations (only=0/1/2: exactly one violation of that kind: loop / parallel / non-positive);
+    returns (n, edges_as_written, kinds)"""
     out = [(u, v, str(w)) for u, v, w in edges]
     kinds = set()
     if n == 0:
         n = 1
-    for _ in range(rng.randint(1, 3)):
-        k = rng.randrange(3)
+    if only == 1 and not out:
+        only = 0
+    if only == 2 and n < 2:
+        only = 0
+    for _ in range(1 if only is not None else rng.randint(1, 3)):
+        k = only if only is not None else rng.randrange(3)
         pos = rng.randint(0, len(out))
         if k == 0:
             v = rng.randrange(n); out.insert(pos, (v, v, str(rng.randint(1, 5)))); kinds.add('loop')
         elif k == 1 and out:
-            u, v, w = rng.choice(out)
-            if u == v: continue
+            cands = [t for t in out if t[0] != t[1]]
+            if not cands:
+                v = rng.randrange(n); out.insert(pos, (v, v, '1')); kinds.add('loop'); continue
+            u, v, w = rng.choice(cands)
             if rng.random() < 0.5: u, v = v, u
             out.insert(pos, (u, v, str(rng.randint(1, 5)))); kinds.add('parallel')
         elif n >= 2:
